@@ -1,15 +1,12 @@
 #![feature(allocator_api)]
 #![allow(unused)]
 use vstd::prelude::*;
+use vstd::std_specs::cmp::*;
+use core::cmp::Ordering as CmpOrdering;
 use std::sync::Arc;
 verus! {
 // ---- unit prelude (ASSUMED): opaque values for everything a builder merely stores ----
-#[derive(Clone, Copy, PartialEq, Eq, Structural)]
-pub struct Duration { pub nanos: u128 }
-impl Duration {
-    pub fn from_millis(ms: u64) -> (r: Duration) ensures r.nanos == ms as u128 * 1_000_000 { Duration { nanos: ms as u128 * 1_000_000 } }
-    pub fn from_secs(s: u64) -> (r: Duration) ensures r.nanos == s as u128 * 1_000_000_000 { Duration { nanos: s as u128 * 1_000_000_000 } }
-}
+//@include time.rs
 pub struct Name { pub id: Ghost<int> }
 pub struct EventListeners { pub n: Ghost<nat> }
 impl EventListeners {
@@ -100,6 +97,9 @@ impl CacheConfigBuilder {
     pub fn new() -> (r: Self)
         ensures r.max_size >= 1 && r.ttl is None && r.key_extractor is None && r.event_listeners.n@ == 0,   // #defaults_bounded_without_ttl [C10]
     //@body CacheConfigBuilder::new
+    pub fn default() -> (r: Self)
+        ensures r.max_size >= 1 && r.ttl is None && r.key_extractor is None && r.event_listeners.n@ == 0,   // #defaults_bounded_without_ttl [C10]
+    //@body CacheConfigBuilder::default@Default
     pub fn max_size(self, size: usize) -> (r: Self)
         ensures r.max_size == size,   // #sets_max_size [C10]
             r.ttl == self.ttl && r.eviction_policy == self.eviction_policy && r.key_extractor == self.key_extractor && r.event_listeners == self.event_listeners && r.name == self.name,   // #keeps_every_other_setting [C10]
@@ -146,6 +146,9 @@ impl SharedCacheConfigBuilder {
     pub fn new() -> (r: Self)
         ensures r.max_size >= 1 && r.ttl is None && r.key_extractor is None && r.event_listeners.n@ == 0,   // #defaults_bounded_without_ttl [C10]
     //@body SharedCacheConfigBuilder::new file=cashared
+    pub fn default() -> (r: Self)
+        ensures r.max_size >= 1 && r.ttl is None && r.key_extractor is None && r.event_listeners.n@ == 0,   // #defaults_bounded_without_ttl [C10]
+    //@body SharedCacheConfigBuilder::default@Default file=cashared
     pub fn max_size(self, size: usize) -> (r: Self)
         ensures r.max_size == size,   // #sets_max_size [C10]
             r.ttl == self.ttl && r.eviction_policy == self.eviction_policy && r.key_extractor == self.key_extractor && r.event_listeners == self.event_listeners && r.name == self.name,   // #keeps_every_other_setting [C10]
